@@ -306,6 +306,9 @@ def run_case(ctx, chi, rng, n_ids, subs, tag='gen'):
     ctx.spec('C02.arguments_unchanged', np.array_equal(params, pcopy, equal_nan=True) and
              (cov is None or np.array_equal(cov, ccopy)) and (again == v or (math.isnan(again) and math.isnan(v))),
              inp, {'first': v, 'second': again})
+    if ctx.cases % 3 == 0:
+        ctx.inplace_reuse('C02.array_changed_in_place_between_calls', lambda a: float(hll(a)), params,
+                          params * np.linspace(1.05, 1.25, len(params)), inp)
     # the same whole numbers as floats, as integers and as a list of Python ints are the same parameters
     whole = np.where(np.abs(params) < 0.3, 0.0, np.where(params < 1.0, 1.0, 2.0))
     wv = ctx.number_types('C02.whole_number_parameters', lambda p: float(hll(p)), whole, inp)
